@@ -1116,6 +1116,8 @@ val process_context_begin : cstate -> cstate cres
 
 val process_context_end : cstate -> cstate cres
 
+val orphan_lexeme : cstate -> lexeme -> cstate cres option
+
 val core_next : cstate -> lexeme -> cstate cres
 
 val lexeme_error : cstate -> lexeme -> cmsg -> cerr
@@ -1154,9 +1156,19 @@ val add_macro : macros -> dir -> macros cres
 
 val collect_macro : dir list -> dir list -> macros -> (dir list * macros) cres
 
-val find_paste : nat -> bytes -> dir -> cerr option
+val paste_nodes : nat -> dir -> dir list
 
-val check_recursion : nat -> macros -> cerr list
+val macro_pastes : nat -> dir -> dir list
+
+val reaches : nat -> nat -> macros -> bytes -> bytes -> bool
+
+val paste_verdict : nat -> nat -> macros -> bytes -> dir -> cerr option
+
+val first_some : ('a1 -> 'a2 option) -> 'a1 list -> 'a2 option
+
+val find_paste : nat -> nat -> macros -> bytes -> dir -> cerr option
+
+val check_recursion : nat -> macros -> cerr option
 
 type xstate = { x_forest : dir list; x_ctx : path option; x_enums : bytes list }
 
